@@ -22,6 +22,10 @@ def handle (st : DState) (args : List String) : DState × String :=
     match unhex rel, unhex txn with
     | some rel, some txn => (st, hex (partitionKey st.m st.buckets rel txn))
     | _, _ => (st, "bad-op")
+  | ["msg", rel, txn, _op] =>          -- the key does not depend on the operation (BEGIN/COMMIT/rows alike)
+    match unhex rel, unhex txn with
+    | some rel, some txn => (st, hex (partitionKey st.m st.buckets rel txn))
+    | _, _ => (st, "bad-op")
   | _ => (st, "bad-op")
 
 end PgBifrost.Driver.Partitioner
